@@ -201,6 +201,37 @@ fn cmd_front(casefile: &str, with_plans: bool, with_doc: bool) {
     }
 }
 
+/// ast <listfile>: each line `id<TAB>ub|-<TAB>path`; parses one file through the real parser
+/// (idlc_ast::from_file) and prints its AST as a Gallina term, or the rejection.
+fn cmd_ast(listfile: &str) {
+    let f = std::fs::File::open(listfile).expect("file");
+    let out = std::io::stdout();
+    let mut out = std::io::BufWriter::new(out.lock());
+    for line in std::io::BufReader::new(f).lines() {
+        let line = line.unwrap();
+        let parts: Vec<&str> = line.split('\t').collect();
+        if parts.len() < 3 {
+            continue;
+        }
+        let ub = parts[1].contains("ub");
+        let path = PathBuf::from(parts[2]);
+        let r = catch_unwind(AssertUnwindSafe(|| idlc_ast::from_file(&path, ub).map_err(|e| e.to_string())));
+        writeln!(out, "@case {}", parts[0]).unwrap();
+        match r {
+            Ok(Ok(a)) => {
+                writeln!(out, "@result ok").unwrap();
+                writeln!(out, "@ast {}", gallina::ast_term(&a, true)).unwrap();
+            }
+            Ok(Err(e)) => writeln!(out, "@result reject {} 0 {}", classify(&e, 0), one_line(&e)).unwrap(),
+            Err(_) => {
+                let m = last_panic();
+                writeln!(out, "@result reject {} 0 {}", classify(&m, 0), one_line(&m)).unwrap()
+            }
+        }
+        writeln!(out, "@end").unwrap();
+    }
+}
+
 /// consts <file>: each line `type<TAB>literal`; parses `const <type> ZC = <literal>;` through
 /// the real parser (range check included) and prints `ok` / `reject <class>` per line.
 fn cmd_consts(file: &str, allow_ub: bool) {
@@ -235,6 +266,7 @@ fn main() {
         Some("front") => cmd_front(&args[2], args.iter().any(|a| a == "--plans"), args.iter().any(|a| a == "--doc")),
         Some("cmp-table") => plan::cmd_cmp_table(),
         Some("consts") => cmd_consts(&args[2], args.iter().any(|a| a == "--ub")),
+        Some("ast") => cmd_ast(&args[2]),
         _ => {
             eprintln!("usage: vharness front <casefile> [--plans] [--doc] | cmp-table");
             std::process::exit(2);
